@@ -1,7 +1,7 @@
 #!/bin/sh
-# Applies every X06 mutant (selftest/X06/*.patch) to a scratch worktree of /repo's HEAD - with
-# proposed_fixes/X06_*.patch applied first where /repo does not contain them yet - and expects
-# ./check X06 to print VIOLATION lines.
+# Applies every X06 mutant (selftest/X06/*.patch) to a scratch worktree of /repo's HEAD (the UNCHANGED
+# tree, on which ./check X06 exits 0 with the known finding X06-F1) and expects ./check X06 to print
+# VIOLATION lines (violations that are not known findings).
 # usage: sh selftest/X06/run_mutants.sh [mutant-name ...]
 HERE="$(cd "$(dirname "$0")/../.." && pwd)"
 WT=$(mktemp -d /tmp/wt_X06_mut.XXXXXX)
@@ -9,9 +9,6 @@ OUTD=$(mktemp -d /tmp/x06_mut_out.XXXXXX)
 rmdir "$WT"
 git -C /repo worktree add --detach "$WT" HEAD >/dev/null 2>&1 || exit 2
 trap 'git -C /repo worktree remove --force "$WT" >/dev/null 2>&1; rm -rf "$OUTD"' EXIT
-for FIX in "$HERE"/proposed_fixes/X06_*.patch; do
-  if git -C "$WT" apply --check "$FIX" 2>/dev/null; then git -C "$WT" apply "$FIX"; echo "applied $(basename "$FIX")"; fi
-done
 if [ -z "$SKIP_BASE" ]; then
   BASE=$(cd "$HERE" && VERIF_OUT="$OUTD" VERIF_REPO="$WT" ./check X06 --tier quick 2>&1 | tail -1)
   echo "UNMUTATED: $BASE"
